@@ -67,6 +67,7 @@ class TraceDomain(Domain):
             self.cb(self, flow, s, s.d.get(("trace",), ()), "yield:" + nm, where, ev)
             s.d[("trace",)] = (("resume", nm, tuple(args), where, flow.cur_func().name, flow.canon(s, call)),)
             s._k = None
+            flow.age_env(s, "L%s" % call.get("line"))
             self.after_yield(flow, s)
         else:
             self._add(s, ev)
